@@ -4,9 +4,11 @@ import (
 	"bytes"
 	"fmt"
 	"io"
+	"math/big"
 
 	"github.com/tjfoc/gmsm/gmtls"
 	"github.com/tjfoc/gmsm/verifsim/pki"
+	"github.com/tjfoc/gmsm/verifsim/ref/refsm2"
 	"github.com/tjfoc/gmsm/verifsim/ref/reftls"
 	"github.com/tjfoc/gmsm/verifsim/simkit"
 )
@@ -16,7 +18,7 @@ import (
 // also makes the Finished values disagree: the endpoint must never complete.
 
 var scriptFaults = []string{"replace-type", "duplicate", "omit", "truncate-body", "truncate-body+close", "set-byte", "handshake-length", "insert-record", "close-before", "close-inside", "stall", "fragment(legal)", "coalesce(legal)", "replace-body", "record-version", "oversize-record", "warning-alerts", "empty-record", "length-field", "plaintext-finished",
-	"hello-version", "hello-suites", "hello-compression", "server-bad-selection", "server-cert-list", "deadline"}
+	"hello-version", "hello-suites", "hello-compression", "server-bad-selection", "server-cert-list", "deadline", "crafted-key-exchange"}
 var scriptReach = []string{"honest-client-vs-gm-server", "honest-client-vs-auto-server", "honest-server-vs-gm-client", "must-complete-completed", "must-fail-failed", "unspecified-ok", "eut-client", "eut-server-gm", "eut-server-auto", "eut-server-tls", "alert-from-eut", "timeout-at-deadline", "legit-wait", "client-auth-path", "dev-in-client-flight", "dev-in-server-flight", "dev-after-ccs"}
 
 func init() {
@@ -175,6 +177,7 @@ func runScriptedPeer(c *simkit.Choice, r *simkit.Rec) {
 	sr.Why = "honest"
 	units := honestUnits(sr.EUTServer, sr.ClientAuth)
 	class := c.Weighted([]int{2, 10, 3, 2}, simkit.LScen) // honest, wire deviations, hello/selection content, deadline
+	crafted := false
 	if sr.EUTServer && sr.SMode == modeTLS && class != 2 {
 		class = 2 // a TLS-only server only ever sees the ClientHello of the GM scripted client
 	}
@@ -227,7 +230,41 @@ func runScriptedPeer(c *simkit.Choice, r *simkit.Rec) {
 		}
 	case 2:
 		if sr.EUTServer {
-			switch c.Choose(4, simkit.LFault) {
+			switch c.Choose(5, simkit.LFault) {
+			case 4:
+				// ClientKeyExchange carrying a malformed GM/T 0009 SM2Cipher structure
+				var x, y *big.Int = big.NewInt(1), big.NewInt(2)
+				hash := drawData(c, 32)
+				ct := drawData(c, 48)
+				kind := c.Choose(8, simkit.LFault)
+				switch kind {
+				case 0:
+					hash = hash[:c.Choose(32, simkit.LFault)]
+				case 1:
+					ct = nil
+				case 2:
+					hash = append(hash, drawData(c, 1+c.Choose(40, simkit.LFault))...)
+				case 3:
+					x = new(big.Int).Lsh(big.NewInt(1), 300)
+				case 4:
+					x, y = big.NewInt(0), big.NewInt(0)
+				case 5:
+					y = new(big.Int).Lsh(big.NewInt(3), 520)
+				case 6:
+					hash, ct = nil, nil
+				}
+				body := reftls.Vec16Body(refsm2.MarshalCiphertextASN1(x, y, hash, ct))
+				if kind == 7 {
+					body = reftls.Vec16Body(drawData(c, c.Range(1, 120, simkit.LFault)))
+				}
+				at := 1
+				if sr.ClientAuth {
+					at = 2
+				}
+				sr.Devs = []*reftls.Dev{{At: at, Kind: reftls.DevReplaceBody, RecBody: body}}
+				sr.Expect = expFail
+				sr.Why = fmt.Sprintf("ClientKeyExchange with a malformed SM2 ciphertext structure (kind %d)", kind)
+				crafted = true
 			case 0:
 				// version sweep 0x0000..0x0400, dense around the real versions
 				if c.Bool(1, 2, simkit.LFault) {
@@ -495,6 +532,9 @@ func runScriptedPeer(c *simkit.Choice, r *simkit.Rec) {
 	if sr.Deadline > 0 {
 		r.Fault(idx(scriptFaults, "deadline"))
 	}
+	if crafted {
+		r.Fault(idx(scriptFaults, "crafted-key-exchange"))
+	}
 	var sent []string
 	if pc != nil {
 		sent = pc.SentUnits
@@ -553,6 +593,9 @@ func runScriptedPeer(c *simkit.Choice, r *simkit.Rec) {
 			case d.Changed:
 				expect = expFail
 			}
+		}
+		if sr.EUTServer && sr.SMode == modeTLS {
+			expect = expFail // a GMSSL client can never complete with a TLS-only server
 		}
 	}
 	// a set-byte that rewrote a byte with its own value, or deviations only after
